@@ -8,7 +8,9 @@ import sys
 
 import codec
 
-CASE_TIMEOUT_S = 10
+# per-case budget in CPU seconds of the worker (ITIMER_PROF): wall-clock alarms gave false "Timeout"
+# verdicts when the machine was busy (thorough tiers of C17/C19, see DESIGN.md 11.4)
+CASE_TIMEOUT_S = 30
 
 
 class _Timeout(Exception):
@@ -64,18 +66,18 @@ def _apply(pass_name, node):
 def run_one(job):
     """job = (id, pass_name, term, flags) -> record"""
     cid, pass_name, term, flags = job
-    node = codec.dec(term)
+    node = codec.dec_shared(term) if flags.get("shared") else codec.dec(term)
     tin = codec.enc(node)
     rec = {"id": cid, "pass": pass_name.split("_m")[0] if pass_name == "simplify_m" else pass_name,
            "in": tin, "out": codec.T("absent"), "exc": "", "flags": dict(flags), "extra": []}
     rec["flags"].setdefault("shape", False)
     rec["flags"]["compiles"] = True
     rec["flags"]["input_unchanged"] = True
-    signal.signal(signal.SIGALRM, _alarm)
-    signal.alarm(CASE_TIMEOUT_S)
+    signal.signal(signal.SIGPROF, _alarm)
+    signal.setitimer(signal.ITIMER_PROF, CASE_TIMEOUT_S)
     try:
         out = _apply(pass_name, node)
-        signal.alarm(0)
+        signal.setitimer(signal.ITIMER_PROF, 0)
         if pass_name == "extract_md":
             out, mds = out
             rec["extra"] = [codec.enc(ast.parse(repr(m), mode="eval")) for m in mds]
@@ -88,13 +90,13 @@ def run_one(job):
     except _Timeout:
         rec["exc"] = "Timeout"
     except RecursionError:
-        signal.alarm(0)
+        signal.setitimer(signal.ITIMER_PROF, 0)
         rec["exc"] = "RecursionError"
     except Exception as e:
-        signal.alarm(0)
+        signal.setitimer(signal.ITIMER_PROF, 0)
         rec["exc"] = type(e).__name__
     finally:
-        signal.alarm(0)
+        signal.setitimer(signal.ITIMER_PROF, 0)
     return rec
 
 
